@@ -32,17 +32,19 @@ type Fault struct {
 }
 
 type Case struct {
-	Kind  string `json:"kind"` // section | attowriter
+	Kind  string `json:"kind"` // section | attowriter | nested-section | nested-at (a writer over an inner section [Off, Off+N))
 	Off   int64  `json:"off"`
 	N     int64  `json:"n,omitempty"`
+	Off2  int64  `json:"off2,omitempty"` // nested kinds: start of the outer writer inside the inner section
+	N2    int64  `json:"n2,omitempty"`   // nested-section: length of the outer section
 	Fault Fault  `json:"fault"`
 	Ops   []Op   `json:"ops"`
 }
 
 var checker = &vk.Checker[Case]{
 	ID: "C18",
-	Rule: "sections (off in {0,1,7,100,2^32+5}, n in {0,1,2,8,64}) or AtToWriter(w, off) over a recording in-memory WriterAt with a fault plan (none; capacity C: bytes at absolute offset >= C refused after writing those below with (m<len, errFull); one-shot: the first write covering a trip offset stores the bytes before it and fails with errIO); " +
-		"histories of <= 40 (thorough <= 200) steps: Write(len 0, 1, .., exactly to the limit, crossing it), WriteAt(buf, o in [-2, n+3]), Seek(offset in [-n-3, n+3] or 2^33, whence in {0,1,2,3,-1}), Size; each buffer carries a per-step byte pattern; fixed histories with buffers of several MiB. " +
+	Rule: "sections (off in {0,1,7,100,2^32+5}, n in {0,1,2,8,64}) or AtToWriter(w, off), also stacked on an inner SectionWriter (nested), over a recording in-memory WriterAt with a fault plan (none; capacity C: bytes at absolute offset >= C refused after writing those below with (m<len, errFull); one-shot: the first write covering a trip offset stores the bytes before it and fails with errIO); " +
+		"histories of <= 40 (thorough <= 200) steps: Write(len 0, 1, .., exactly to the limit, crossing it), WriteAt(buf, o in [-2, n+3] or at the top of int64), Seek(offset in [-n-3, n+3] or 2^33, whence in {0,1,2,3,-1}), Size; each buffer carries a per-step byte pattern; fixed histories with buffers of several MiB. " +
 		"Reference model: base/cursor/limit + expected memory image + expected (n, error class) per step; after EVERY step: return values, every byte the recorder received lies inside [off, off+n), the memory image (position and content of every byte that landed) == model (the number of underlying calls is not asserted), cursor == model (observed via Seek(0, SeekCurrent)), Size()==n. " +
 		"Non-trivial: >= 2 writes with a Seek or a truncated/failed write before a later write. Distinct by hash of the history.",
 	Check:    check,
@@ -134,6 +136,7 @@ func pattern(step, n int) []byte {
 
 type model struct {
 	base, cur, limit int64
+	ownEnd           int64 // nested-section: end of the outer section itself (SeekEnd refers to it)
 	img              *image
 	fault            Fault
 	nonEmpty         int
@@ -204,7 +207,13 @@ func (m *model) seek(offset int64, whence int) (int64, bool) {
 	case io.SeekCurrent:
 		target = m.cur + offset
 	case io.SeekEnd:
-		target = m.limit + offset
+		// relative to the end of the writer's own section (for a stacked writer that may lie beyond the
+		// point where the inner section ends, which only limits what can be written)
+		end := m.limit
+		if m.ownEnd != 0 {
+			end = m.ownEnd
+		}
+		target = end + offset
 	default:
 		return 0, false
 	}
@@ -228,7 +237,30 @@ func check(c Case) *vk.Failure {
 	rec := &recorder{img: newImage(), fault: c.Fault}
 	m := &model{base: c.Off, cur: c.Off, img: newImage(), fault: c.Fault}
 	var w io.Writer
-	if c.Kind == "section" {
+	secOff, secN := c.Off, c.N // the section the writer under test must stay inside, and what Size must report
+	if c.Kind == "nested-section" || c.Kind == "nested-at" {
+		// a writer stacked on an inner SectionWriter: it behaves like one section that starts at
+		// Off+Off2 and ends where the first of the two ends
+		var inner *iohelper.SectionWriter
+		if f := vk.Try("NewSectionWriter(inner)", func() { inner = iohelper.NewSectionWriter(rec, c.Off, c.N) }); f != nil {
+			return f
+		}
+		m.base, m.cur = c.Off+c.Off2, c.Off+c.Off2
+		m.limit = c.Off + c.N
+		if c.Kind == "nested-section" {
+			m.ownEnd = c.Off + c.Off2 + c.N2
+			if m.ownEnd < m.limit {
+				m.limit = m.ownEnd
+			}
+			if f := vk.Try("NewSectionWriter(outer over inner)", func() { w = iohelper.NewSectionWriter(inner, c.Off2, c.N2) }); f != nil {
+				return f
+			}
+			secN = c.N2
+		} else if f := vk.Try("AtToWriter(inner section)", func() { w = iohelper.AtToWriter(inner, c.Off2) }); f != nil {
+			return f
+		}
+		secOff = c.Off + c.Off2
+	} else if c.Kind == "section" {
 		m.limit = c.Off + c.N
 		if f := vk.Try("NewSectionWriter", func() { w = iohelper.NewSectionWriter(rec, c.Off, c.N) }); f != nil {
 			return f
@@ -242,7 +274,9 @@ func check(c Case) *vk.Failure {
 	seeker, _ := w.(io.Seeker)
 	wat, _ := w.(io.WriterAt)
 	sizer, _ := w.(interface{ Size() int64 })
-	if c.Kind == "section" && (seeker == nil || wat == nil || sizer == nil) {
+	sized := c.Kind == "section" || c.Kind == "nested-section"
+	bounded := c.Kind != "attowriter"
+	if sized && (seeker == nil || wat == nil || sizer == nil) {
 		return vk.Failf("api", "SectionWriter lacks Seek/WriteAt/Size")
 	}
 
@@ -306,22 +340,22 @@ func check(c Case) *vk.Failure {
 				m.cur = before
 			}
 		case "size":
-			if sizer == nil || c.Kind != "section" {
+			if sizer == nil || !sized {
 				continue
 			}
 			var g int64
 			if f := vk.Try(step, func() { g = sizer.Size() }); f != nil {
 				return f
 			}
-			if g != c.N {
-				return vk.Failf("size", "%s: Size() = %d, want %d", step, g, c.N)
+			if g != secN {
+				return vk.Failf("size", "%s: Size() = %d, want %d", step, g, secN)
 			}
 		}
 		// every byte that reached the underlying writer lies inside the section, where the model put it
 		newCalls := rec.calls[callsBefore:]
 		for _, cl := range newCalls {
-			if cl.n > 0 && (cl.off < c.Off || (c.Kind == "section" && cl.off+int64(cl.n) > c.Off+c.N)) {
-				return vk.Failf("outside-section", "%s: underlying WriteAt(%d bytes at %d) lies outside [%d,%d)", step, cl.n, cl.off, c.Off, c.Off+c.N)
+			if cl.n > 0 && (cl.off < secOff || (bounded && cl.off+int64(cl.n) > m.limit)) {
+				return vk.Failf("outside-section", "%s: underlying WriteAt(%d bytes at %d) lies outside [%d,%d)", step, cl.n, cl.off, secOff, m.limit)
 			}
 		}
 		// (how many calls the bytes arrive in is not part of the property: only where they land,
@@ -340,13 +374,32 @@ func check(c Case) *vk.Failure {
 				return vk.Failf("cursor", "%s: cursor is at %d (err %v), the model predicts %d", step, pos, err, m.cur-m.base)
 			}
 		}
-		if sizer != nil && c.Kind == "section" {
-			if g := sizer.Size(); g != c.N {
-				return vk.Failf("size", "%s: Size() = %d, want %d", step, g, c.N)
+		if sizer != nil && sized {
+			if g := sizer.Size(); g != secN {
+				return vk.Failf("size", "%s: Size() = %d, want %d", step, g, secN)
 			}
 		}
 	}
 	return nil
+}
+
+// modelFor builds the reference model of a case (base, cursor, limit).
+func modelFor(c Case) *model {
+	m := &model{base: c.Off, cur: c.Off, img: newImage(), fault: c.Fault, limit: math.MaxInt64}
+	switch c.Kind {
+	case "section":
+		m.limit = c.Off + c.N
+	case "nested-section", "nested-at":
+		m.base, m.cur = c.Off+c.Off2, c.Off+c.Off2
+		m.limit = c.Off + c.N
+		if c.Kind == "nested-section" {
+			m.ownEnd = c.Off + c.Off2 + c.N2
+			if m.ownEnd < m.limit {
+				m.limit = m.ownEnd
+			}
+		}
+	}
+	return m
 }
 
 func classify(c Case) (bool, []string) {
@@ -355,10 +408,7 @@ func classify(c Case) (bool, []string) {
 		labels = append(labels, "n=0")
 	}
 	// replay the model alone
-	m := &model{base: c.Off, cur: c.Off, img: newImage(), fault: c.Fault, limit: math.MaxInt64}
-	if c.Kind == "section" {
-		m.limit = c.Off + c.N
-	}
+	m := modelFor(c)
 	writes, disturbed, nt := 0, false, false
 	trunc, failed, seeks := false, false, false
 	for si, op := range c.Ops {
@@ -407,6 +457,10 @@ func genCase(t *rapid.T) Case {
 	c.N = rapid.SampledFrom([]int64{0, 1, 2, 8, 64, 8, 64}).Draw(t, "n")
 	if gen.Chance(t, 1, 6, "attowriter") {
 		c.Kind, c.N = "attowriter", 0
+	} else if gen.Chance(t, 1, 5, "nested") { // a writer stacked on a SectionWriter
+		c.Kind = []string{"nested-section", "nested-at"}[gen.Uniform(t, 2, "nestkind")]
+		c.Off2 = int64(gen.Uniform(t, int(c.N)+3, "off2"))
+		c.N2 = int64(gen.Uniform(t, int(c.N)+4, "n2"))
 	}
 	span := c.N
 	if c.Kind == "attowriter" {
@@ -422,16 +476,13 @@ func genCase(t *rapid.T) Case {
 	}
 	n := 1 + gen.Len(t, vk.Pick(39, 199), "steps")
 	// the generator follows the cursor with its own copy of the model so that it can aim at the limit
-	m := &model{base: c.Off, cur: c.Off, img: newImage(), fault: c.Fault, limit: math.MaxInt64}
-	if c.Kind == "section" {
-		m.limit = c.Off + c.N
-	}
+	m := modelFor(c)
 	for i := 0; i < n; i++ {
 		var op Op
 		switch gen.Uniform(t, 10, "op") {
 		case 0, 1, 2, 3:
 			room := m.limit - m.cur
-			if c.Kind == "attowriter" || room < 0 || room > 200 {
+			if c.Kind == "attowriter" || c.Kind == "nested-at" && false || room < 0 || room > 200 {
 				room = int64(gen.Uniform(t, 20, "room"))
 			}
 			var l int64
@@ -465,6 +516,9 @@ func genCase(t *rapid.T) Case {
 			default:
 				l = int64(gen.Uniform(t, int(span)+4, "l"))
 			}
+			if gen.Chance(t, 1, 15, "extreme") { // the largest offsets an int64 holds
+				o = []int64{math.MaxInt64, math.MaxInt64 - 1, math.MaxInt64 - c.Off, math.MaxInt64 - c.Off - 1, math.MaxInt64 - c.Off + 1, 1 << 62, math.MinInt64}[gen.Uniform(t, 7, "exto")]
+			}
 			op = Op{K: "writeat", Len: int(l), O: o}
 			m.writeAt(pattern(i, int(l)), o)
 		case 7, 8:
@@ -472,6 +526,9 @@ func genCase(t *rapid.T) Case {
 			off := int64(gen.Uniform(t, int(2*span)+7, "so")) - span - 3
 			if gen.Chance(t, 1, 12, "far") {
 				off = 1 << 33
+			}
+			if (c.Kind == "attowriter" || c.Kind == "nested-at") && wh == 2 {
+				wh = 1 // SeekEnd on an unbounded writer is relative to MaxInt64: outside the domain generated here
 			}
 			if c.Kind == "attowriter" && wh == 2 && off > 0 {
 				off = -off // positive SeekEnd offsets would overflow int64 on the unbounded section (outside the domain)
@@ -499,6 +556,11 @@ func TestGrid(t *testing.T) {
 		{Kind: "section", Off: 1, N: 64, Fault: Fault{Kind: "capacity", C: 10}, Ops: []Op{{K: "write", Len: 5}, {K: "write", Len: 10}, {K: "write", Len: 1}, {K: "writeat", Len: 4, O: 7}}},
 		{Kind: "attowriter", Off: 1<<32 + 5, Fault: Fault{Kind: "oneshot", C: 1<<32 + 5 + 9}, Ops: []Op{{K: "write", Len: 5}, {K: "write", Len: 10}, {K: "write", Len: 1}, {K: "seek", O: 3, Whence: 0}, {K: "write", Len: 2}}},
 		{Kind: "section", Off: 0, N: 0, Fault: Fault{Kind: "none"}, Ops: []Op{{K: "write", Len: 0}, {K: "write", Len: 1}, {K: "writeat", Len: 0, O: 0}, {K: "seek", O: 0, Whence: 2}, {K: "size"}}},
+		// writers stacked on a SectionWriter whose start is not 0
+		{Kind: "nested-at", Off: 40, N: 24, Off2: 8, Fault: Fault{Kind: "none"}, Ops: []Op{{K: "write", Len: 10}, {K: "write", Len: 10}, {K: "write", Len: 1}, {K: "writeat", Len: 30, O: 2}}},
+		{Kind: "nested-at", Off: 40, N: 24, Off2: 30, Fault: Fault{Kind: "none"}, Ops: []Op{{K: "write", Len: 3}, {K: "writeat", Len: 3, O: 0}}},
+		{Kind: "nested-section", Off: 7, N: 64, Off2: 60, N2: 16, Fault: Fault{Kind: "none"}, Ops: []Op{{K: "write", Len: 3}, {K: "write", Len: 3}, {K: "seek", O: -2, Whence: 2}, {K: "write", Len: 5}, {K: "size"}}},
+		{Kind: "section", Off: 9, N: 16, Fault: Fault{Kind: "none"}, Ops: []Op{{K: "writeat", Len: 16, O: math.MaxInt64}, {K: "writeat", Len: 4, O: math.MaxInt64 - 9}, {K: "writeat", Len: 4, O: math.MaxInt64 - 8}, {K: "write", Len: 2}}},
 		// buffers of several MiB (size thresholds of any chunked implementation), also truncated by the section end and by a full device
 		{Kind: "section", Off: 7, N: 5 << 20, Fault: Fault{Kind: "none"}, Ops: []Op{{K: "write", Len: 1<<20 + 1}, {K: "write", Len: 2<<20 + 5}, {K: "writeat", Len: 1<<20 + 3, O: 100}, {K: "seek", O: -10, Whence: 2}, {K: "write", Len: 3 << 20}}},
 		{Kind: "attowriter", Off: 100, Fault: Fault{Kind: "capacity", C: 100 + 2<<20 + 17}, Ops: []Op{{K: "write", Len: 1 << 20}, {K: "write", Len: 1<<20 + 1}, {K: "write", Len: 1 << 20}, {K: "write", Len: 5}}},
